@@ -8,7 +8,7 @@ import MsqModel.Convert
   `CREATE TABLE [IF NOT EXISTS]`, ONE back-quoted NAME token for the (schema-qualified) table name (`tableNameSrc`), one PARENTHESIS
   group holding the comma-separated lines (column definitions, then — MySQL — `PRIMARY KEY`, `UNIQUE KEY`s, `KEY`s, `FULLTEXT KEY`s),
   then the table options in the printer's order.  A column definition is: back-quoted name, type word, a group with the
-  comma-separated parameters (dropped by the Hive printer outside DECIMAL / VARCHAR / CHAR: `hiveDrops`), the attributes in the order
+  comma-separated parameters, each bracketed when above the compute level (dropped by the Hive printer outside DECIMAL / VARCHAR / CHAR: `hiveDrops`), the attributes in the order
   of `prDefCol` (MySQL only: UNSIGNED, ZEROFILL, CHARACTER SET s, COLLATE s, NULL, NOT NULL, AUTO_INCREMENT, DEFAULT e, ON UPDATE e),
   `COMMENT s`.  Strings the tree stores as raw source (comments, charset names, engine …) are one token `srcTok s`.
   The link `lex (prStmt d (.createTable c)) = toksCreate d c` is the lexer's business; it is checked by compiled evaluation
@@ -51,7 +51,7 @@ def hiveDrops (t : ColType) : Bool := d == .HIVE && !(["DECIMAL", "VARCHAR", "CH
 def toksParams (t : ColType) : List Tok :=
   match t.params with
   | none => []
-  | some ps => if hiveDrops d t then [] else [grp (sepAll (ps.map (toksE d noX)))]
+  | some ps => if hiveDrops d t then [] else [grp (sepAll (ps.map fun e => W d noX e 8))]
 def toksType (t : ColType) : List Tok := opTok t.name :: toksParams d t
 def toksComment : Option String → List Tok
   | some s => [opTok "COMMENT", srcTok s]
@@ -152,12 +152,13 @@ def isOkName (r : Except Err (Option String × String)) (t : TableName) : Bool :
 def tblOK (t : TableName) : Bool := isOkName (splitName (tblTok t).src) t
 /-- an integer the printer writes as a non-negative decimal that `int()` reads back -/
 def intOK (n : Int) : Bool := decide (0 ≤ n) && isOkInt (pyInt (intTok n).src) n
-/-- a type parameter: a tree of the expression fragment at the compute level (integers, in practice) -/
-def paramOK (e : Expr) : Bool := Frag d e && decide (PR.lvl e ≤ 8)
+/-- a type parameter: a tree of the expression fragment (integers, in practice; the printer brackets what is above the compute
+level: `source_with_parenthesis(param, sql_type, 8)`) -/
+def paramOK (e : Expr) : Bool := Frag d e
 def typeOK (t : ColType) : Bool :=
   match t.params with
   | none => true
-  | some ps => !hiveDrops d t && ps.all (paramOK d) && segsOK (ps.map (toksE d noX))
+  | some ps => !hiveDrops d t && ps.all (paramOK d) && segsOK (ps.map fun e => W d noX e 8)
 def optFragE : Option Expr → Bool
   | none => true
   | some e => Frag d e
